@@ -280,10 +280,10 @@ class Ctx:
                 for imp in imports:
                     f.write('From PV Require Import %s.\n' % imp)
                 f.write('From Coq Require Import String.\nOpen Scope Z_scope.\n')
-                f.write('Definition cs : list (nat * val * val) := [\n')
-                f.write(';\n'.join('(%d%%nat, toval (%s), %s)' % (k + i, m, to_val(v))
+                f.write('Definition cs : list (Z * val * val) := [\n')
+                f.write(';\n'.join('(%d, toval (%s), %s)' % (k + i, m, to_val(v))
                                    for i, (m, v) in enumerate(chunk)))
-                f.write('].\nEval vm_compute in bad_cases cs.\n')
+                f.write('].\nEval vm_compute in bad_casesZ cs.\n')
             files.append(path)
         procs = []
         bad = []
@@ -312,14 +312,12 @@ class Ctx:
                 self.log(out[-2000:])
                 failed = True
                 continue
-            m = re.search(r'=\s*\[(.*?)\]\s*:\s*list nat', out, re.S)
+            m = re.search(r'=\s*\[(.*?)\]\s*:\s*list Z', out, re.S)
             if not m:
                 self.log('cannot parse coqc output', out[-500:])
                 failed = True
                 continue
-            bad += [int(x) for x in re.findall(r'(\d+)%nat', m.group(1))]
-            if m.group(1).strip() and not re.findall(r'(\d+)%nat', m.group(1)):
-                bad += [int(x) for x in re.findall(r'\d+', m.group(1))]
+            bad += [int(x) for x in re.findall(r'\d+', m.group(1))]
         self.cov['evaluations'] += len(cases)
         if failed:
             self.failed_stages.append(('cases_' + name, 'coqc failed on a generated cases file'))
